@@ -516,6 +516,34 @@ func (p Prop) checkAbort(c *Case, x *execInfo, f *ops.Fault) (string, string, st
 			break
 		}
 	}
+	// a failing before-hook of an argument record comes before every later phase
+	// of the operation — saving its associations, its own statement, the
+	// after-hooks: nothing of those may have happened already when it ran (the
+	// before-hooks of the other argument records of a slice may)
+	// (not for batched creates: every batch is a complete pipeline of its own)
+	if c.W != nil && phase(failEv.Hook) == "before" && c.W.Kind != "create_batches" && c.W.SessBatch == 0 {
+		roots := map[string]bool{}
+		for _, n := range x.nodes {
+			if n.Root {
+				roots[fmt.Sprintf("%p", n.Ptr)] = true
+			}
+		}
+		if roots[failEv.Rec] {
+			for _, h := range sr.Hooks {
+				if h.Seq < failSeq && !(roots[h.Rec] && phase(h.Hook) == "before") {
+					return "ran_before_hook_error", k + "|hook:" + h.Model + "." + h.Hook, fmt.Sprintf("%s.%s of an argument record failed, but %s.%s (a later phase of the operation) had already run", failEv.Model, failEv.Hook, h.Model, h.Hook)
+				}
+			}
+			for _, ev := range sr.Events {
+				if strings.Contains(ev.SQL, "`markers`") || ev.Seq >= failSeq || x.txPool != "" {
+					continue
+				}
+				if (ev.Kind == "exec" || ev.Kind == "query") && (strings.HasPrefix(ev.SQL, "INSERT") || strings.HasPrefix(ev.SQL, "UPDATE") || strings.HasPrefix(ev.SQL, "DELETE")) {
+					return "ran_before_hook_error", k + "|stmt:" + ops.SQLSig(ev.SQL), fmt.Sprintf("%s.%s of an argument record failed, but the driver had already received %s", failEv.Model, failEv.Hook, ev.SQL)
+				}
+			}
+		}
+	}
 	for _, h := range sr.Hooks {
 		if h.Seq > failSeq && !(h.Model == failEv.Model && phase(h.Hook) == phase(failEv.Hook)) {
 			return "ran_after_hook_error", k + "|hook:" + h.Model + "." + h.Hook, fmt.Sprintf("after %s.%s failed, hook %s.%s still ran", failEv.Model, failEv.Hook, h.Model, h.Hook)
